@@ -193,9 +193,11 @@ func (g *generator) preprocessQueryDocument(doc *ast.QueryDocument) {
 		hasTypename := false
 		for _, selection := range field.SelectionSet {
 			// Check if we already selected __typename. We ignore fragments,
-			// because we want __typename as a toplevel field.
+			// because we want __typename as a toplevel field.  It must be
+			// there under its own name: the unmarshaler looks for the
+			// response key "__typename", so `kind: __typename` won't do.
 			subField, ok := selection.(*ast.Field)
-			if ok && subField.Name == "__typename" {
+			if ok && subField.Alias == "__typename" {
 				hasTypename = true
 			}
 		}
